@@ -78,6 +78,10 @@ func loadBases() {
 type model struct {
 	digestOK bool
 	hasCode  bool
+	// what the digest depends on in these histories: the document's code and
+	// the number of notes appended, now and when the digest was last computed
+	code, dCode   string
+	notes, dNotes int
 	sigs     []snap
 	stamps   [][2]string
 	links    [][2]string
@@ -189,7 +193,9 @@ func judge(c Case, o *vh.Obs) {
 		o.Discard()
 		return
 	}
-	m := &model{digestOK: true, hasCode: true}
+	m := &model{digestOK: true, hasCode: true, code: "base", dCode: "base"}
+	sync := func() { m.digestOK = m.code == m.dCode && m.notes == m.dNotes }
+	digested := func() { m.dCode, m.dNotes = m.code, m.notes; sync() }
 	counter := 0
 	history := func(i int) string { return strings.Join(c.Ops[:i+1], ",") }
 	for i, op := range c.Ops {
@@ -208,31 +214,34 @@ func judge(c Case, o *vh.Obs) {
 				o.Failf("insert:error", "step %d (%s): inserting a valid document failed: %v", i, history(i), err)
 				return
 			}
-			m.digestOK, m.hasCode = true, true
+			m.hasCode = true
+			m.code, m.notes = "inserted", 0
+			digested()
 		case "calculate":
 			if err := env.Calculate(); err != nil {
 				o.Failf("calculate:error", "step %d (%s): %v", i, history(i), err)
 				return
 			}
-			m.digestOK = true
+			digested()
 		case "edit":
 			counter++
 			inv := invoiceOf(env)
 			inv.Notes = append(inv.Notes, &org.Note{Text: fmt.Sprintf("edit %d", counter)})
-			m.digestOK = false
+			m.notes++
+			sync()
 		case "dropcode":
 			inv := invoiceOf(env)
-			if inv.Code != "" {
-				inv.Code = ""
-				m.digestOK = false
-			}
+			inv.Code = ""
+			m.code = ""
 			m.hasCode = false
+			sync()
 		case "addcode":
 			counter++
 			inv := invoiceOf(env)
 			inv.Code = cbc.Code(fmt.Sprintf("NEW-%d", counter))
-			m.digestOK = false
+			m.code = string(inv.Code)
 			m.hasCode = true
+			sync()
 		case "sign1", "sign2":
 			k := 0
 			if op == "sign2" {
